@@ -316,7 +316,7 @@ Definition twkb_parse_check_count_shape : list (string * string) :=
     ("params", "uint64,int");
     ("v0", "uint64(len(recv.twkb)-recv.pos)");
     ("lhs", "p0");
-    ("op", ">=");
+    ("op", ">");
     ("rhs", "v0/uint64(p1)");
     ("then", "error");
     ("else", "nil")
